@@ -20,7 +20,8 @@ import (
 
 func init() {
 	register(&Check{
-		ID: "C13", Level: "exploration", Configs: []string{"clean"},
+		ID:      "C13",
+		Tenants: func(c *core.Ctx, i int) tenant { return tenantCodec(c, kAV1Dep, kAV1Pkt) }, Level: "exploration", Configs: []string{"clean"},
 		Run:         runC13,
 		QuickRuns:   120_000,
 		ThoroughSec: 600,
